@@ -49,7 +49,7 @@ def run(ctx):
             ctx.ob("E6.flag", "BlsSignCrypt::decrypt@%s" % ("const0" if fm == G.FALSE else show(fl, 2)), ok, "CtOption flag is %s (must be the constant 0 or the `valid` parameter itself)" % show(fl, 4), where=where(f, bb))
     # each caller of decrypt passes valid(u,v,w,dst) of the same ciphertext
     callers = P.callers().get("BlsSignCrypt::decrypt", [])
-    ctx.floor("E6.flag", "call sites of BlsSignCrypt::decrypt", len(callers), 3)
+    ctx.floor("E6.flag", "call sites of BlsSignCrypt::decrypt", len(callers), 1)
     for g, bb, t in callers:
         gev = evaluate(g)
         s = gev.sites[bb]
